@@ -351,7 +351,10 @@ func (g *progGen) node(depth int) string {
 		case 2:
 			return `{% include "` + name + `" with x=` + g.expr(1) + ` only %}`
 		case 3:
-			return `{% include incname %}` // lazy; incname is a context value naming /lazy.tpl
+			if g.chance(2, "maybe") {
+				return `{% include maybeinc if_exists %}` // lazy; exists only in some contexts
+			}
+			return `{% include incname %}` // lazy; incname is a context value naming a helper file
 		default:
 			return `{% include "/missing.tpl" if_exists %}`
 		}
@@ -486,7 +489,7 @@ func (g *progGen) helper(depth int) string {
 
 func progFixedFiles() map[string]string {
 	return map[string]string{
-		"/macros.tpl": `{% macro imp_box(v) export %}[{{ v }}]{% endmacro %}{% macro imp_row(a, b=1) export %}({{ a }}:{{ b }}){% endmacro %}`,
+		"/macros.tpl": `{% macro imp_box(v) export %}[{{ v }}{{ name }}]{% endmacro %}{% macro imp_row(a, b=n) export %}({{ a }}:{{ b }}){% endmacro %}`,
 		"/part.tpl":   `part[{{ name }}|{{ n }}]`,
 		"/plain.txt":  `plain {{ not_evaluated }} text`,
 		"/lazy.tpl":   `lazy[{{ name|upper }}{% for i in nums %}{{ i }}{% endfor %}]`,
@@ -588,7 +591,8 @@ func progContext(variant int, ts *tickState) pongo2.Context {
 		"emptylist": []int{},
 		"pairs":     []any{1, "two", 3.5, nil},
 		"nested":    map[string]any{"inner": map[string]any{"x": "deep"}},
-		"incname":   "/lazy.tpl",
+		"incname":   []string{"/lazy.tpl", "/lazy.tpl", "/part.tpl"}[variant%3],
+		"maybeinc":  []string{"/nosuch.tpl", "/lazy.tpl", "/part.tpl", "/nosuch2.tpl"}[variant%4],
 		"greet":     func(s string) string { return "hey " + s },
 		"twice":     func(i int) int { return 2 * i },
 		"sum": func(xs ...int) int {
